@@ -19,11 +19,34 @@ use crate::audit::{AuditMutex, AuditRwLock};
 use crate::world::{set_reg_tag, LockId, World};
 
 /// Payload of every lock.  `check` = f(lock_id, version).
-#[derive(Debug, Clone, PartialEq, Eq)]
+#[derive(Clone, PartialEq, Eq)]
 pub struct Cell3 {
 	pub lock_id: u32,
 	pub version: u64,
 	pub check: u64,
+}
+
+thread_local! {
+	/// how the payload's Debug behaves on this thread: 0 = prints, 1 = returns Err, 2 = panics
+	pub static PAYLOAD_DEBUG: std::cell::Cell<u8> = const { std::cell::Cell::new(0) };
+}
+
+/// typed payload of the panic a payload's Debug raises in mode 2
+pub struct PayloadDebugPanic;
+
+impl std::fmt::Debug for Cell3 {
+	fn fmt(&self, f: &mut std::fmt::Formatter<'_>) -> std::fmt::Result {
+		match PAYLOAD_DEBUG.with(|m| m.get()) {
+			1 => Err(std::fmt::Error),
+			2 => std::panic::resume_unwind(Box::new(PayloadDebugPanic)),
+			_ => f
+				.debug_struct("Cell3")
+				.field("lock_id", &self.lock_id)
+				.field("version", &self.version)
+				.field("check", &self.check)
+				.finish(),
+		}
+	}
 }
 
 pub fn checksum(lock_id: u32, version: u64) -> u64 {
